@@ -368,7 +368,14 @@ def parse_module(text):
             mm = re.search(r'@("[^"]+"|[-\w.$]+)\(', hdr)
             name = '@' + mm.group(1)
             # parse params
-            toks = tokenize(hdr[mm.end()-1:])
+            # parameter list only: from the '(' after the name to its matching ')' (attributes such as comdat($sym) follow it)
+            st = mm.end() - 1; depth = 0; en = st
+            for en in range(st, len(hdr)):
+                if hdr[en] == '(': depth += 1
+                elif hdr[en] == ')':
+                    depth -= 1
+                    if depth == 0: break
+            toks = tokenize(hdr[st:en + 1])
             p = P(toks); p.expect('(')
             params = []
             k = 0
